@@ -29,8 +29,19 @@ PROP = "C20"
 FMT = logging.Formatter("%(name)s %(levelname)s %(message)s")
 
 
-def gen_password(rnd):
+def gen_password(rnd, allow_long=False):
     core = "".join(rnd.choice(string.ascii_letters + string.digits) for _ in range(rnd.randint(8, 14)))
+    if allow_long and rnd.random() < 0.025:
+        # longer than the stream reader's line limit (64 KiB): the PASS line reaches the server in
+        # several segments and overflows its buffer before the terminator arrives
+        n = rnd.choice([65530, 65600, 70000, 140000])
+        toks = []
+        total = 0
+        while total < n:
+            t = format(rnd.getrandbits(200), "x").swapcase() if len(toks) % 2 else format(rnd.getrandbits(200), "x")
+            toks.append(t)
+            total += len(t) + 1
+        return rnd.choice(["", " "]).join(toks)[:n]
     k = rnd.random()
     if k < 0.35:
         return core
@@ -53,14 +64,14 @@ def gen_case(seed):
     rnd = random.Random(seed * 2003 + 12)
     users = []
     for name in ("alice", "bob"):
-        users.append({"login": name, "password": gen_password(rnd), "maximum_connections": rnd.choice([None, None, 1, 2])})
+        users.append({"login": name, "password": gen_password(rnd, allow_long=True), "maximum_connections": rnd.choice([None, None, 1, 2])})
     users.append({"login": None})
     sessions = []
     for i in range(rnd.randint(1, 5)):
         who = rnd.choice(["alice", "bob", "alice", "ghost", "anonymous"])
         kind = rnd.choice(["client", "client", "raw", "raw", "raw"])
         pw_kind = rnd.choice(["right", "right", "wrong", "right"])
-        s = {"kind": kind, "user": who, "pw": pw_kind, "wrong": gen_password(rnd), "start": rnd.choice([0.0, 0.0, 0.01, 0.2]), "hold": rnd.random() < 0.5}
+        s = {"kind": kind, "user": who, "pw": pw_kind, "wrong": gen_password(rnd, allow_long=True), "start": rnd.choice([0.0, 0.0, 0.01, 0.2]), "hold": rnd.random() < 0.5}
         if kind == "raw":
             s["verb"] = rnd.choice(["PASS", "pass", "PaSs", "Pass", "pAsS"])
             s["order"] = rnd.choice(["normal", "normal", "pass-first", "pass-twice", "pass-after-login", "cut-after-pass", "double-space"])
@@ -71,6 +82,17 @@ def gen_case(seed):
 
 
 def needles(pw):
+    if len(pw) > 200:
+        # a long password: any 16 consecutive characters give it away (head, tail, a window
+        # every 4093 characters and a dense set near the end - what is left of a line cut at the
+        # reader's 64 KiB limit is its tail)
+        out = {pw[:16], pw[-16:]}
+        for i in range(0, len(pw) - 16, 4093):
+            out.add(pw[i : i + 16])
+        for i in range(len(pw) - 16, max(0, len(pw) - 6000), -251):
+            out.add(pw[i : i + 16])
+        out |= {n.lower() for n in out} | {n.strip() for n in out}
+        return {n for n in out if len(n) >= 12}
     out = {pw}
     if pw.strip() and pw.strip() != pw:
         out.add(pw.strip())
@@ -90,7 +112,10 @@ def needles(pw):
 
 def run_case(case):
     rng = random.Random(case["seed"] * 7919 + 107)
-    net = scenario.random_net(rng, allow_small_pipe=True)
+    long_pw = any(len(u.get("password") or "") > 200 for u in case["users"]) or any(len(x.get("wrong") or "") > 200 for x in case["sessions"])
+    net = scenario.random_net(rng, allow_small_pipe=not long_pw)
+    if long_pw and net.get("seg_mode") == "dribble":
+        net["seg_mode"] = "mss"
     sc = {"seed": case["seed"], "server": {"users": case["users"], "encoding": case["server_encoding"], "wait_future_timeout": 1.0}, "net": net, "fs": {"delay": None}}
     viol = []
     supplied = []  # every password string any peer supplied
@@ -191,9 +216,12 @@ def run_case(case):
             texts.append((None, f"loop-exception-handler {e['message']} {e['exception']}"))
         # a 1-character password is only meaningful if the character occurs nowhere else
         all_other = " ".join(u["login"] or "" for u in case["users"])
+        haystack = "\x00".join(t for _, t in texts)
         for pw in set(supplied):
             for nd in needles(pw):
                 if len(nd) < 4 and not all(ord(ch) > 127 for ch in nd):
+                    continue
+                if nd not in haystack:
                     continue
                 for r, t in texts:
                     if nd in t:
